@@ -415,3 +415,74 @@ fn fd_reject_small() {
     assert!(MatrixMap::<bool>::try_from_bits(&px[..25], 12).err() == Some(BitmapConversionError::DataSize));
     assert!(MatrixMap::<bool>::try_from_bits(&px[..0], 3).err() == Some(BitmapConversionError::SymbolSize));
 }
+
+/// Every single-module deviation from a valid rendering: the empty symbol of the
+/// shape with ONE module flipped at a symbolic position.  A flipped data module is
+/// accepted and comes back as exactly that entry; a flipped finder / clock /
+/// alignment (or fixed-corner) module is rejected.
+fn fd_flip<const N: usize>(idx: usize) {
+    let t = TABLE[idx];
+    let size = VARIANTS[idx];
+    assert!(t.rows * t.cols == N);
+    let mut m = MatrixMap::<bool>::new(size);
+    m.write_padding();
+    let bm = m.bitmap();
+    let mut px = [false; N];
+    let mut i = 0;
+    while i < N {
+        px[i] = bm.bits[i];
+        i += 1;
+    }
+    let k: usize = kani::any();
+    kani::assume(k < N);
+    px[k] = !px[k];
+    let r = MatrixMap::<bool>::try_from_bits(&px, t.cols);
+    let h = t.rows - 2 * t.reg_v;
+    let w = t.cols - 2 * t.reg_h;
+    match annexf::module_kind(t.rows, t.cols, t.reg_v, t.reg_h, k / t.cols, k % t.cols) {
+        Module::Data(e) => {
+            let corner = size.has_padding_modules() && (e == h * w - 1 || e == h * w - 2 || e == h * w - w - 1 || e == h * w - w - 2);
+            if corner {
+                assert!(r.is_err());
+            } else {
+                match r {
+                    Ok((m2, s)) => {
+                        assert!(s == size);
+                        assert!(m2.entries[e] != m.entries[e]);
+                    }
+                    Err(_) => assert!(false),
+                }
+            }
+        }
+        _ => {
+            assert!(r.err() == Some(BitmapConversionError::Alignment));
+        }
+    }
+}
+
+#[kani::proof]
+#[kani::unwind(258)]
+#[kani::stub(crate::symbol_size::SymbolList::all, vs::all_r8x32)]
+#[kani::stub(crate::symbol_size::SymbolSize::block_setup, vs::bs_r8x32)]
+#[kani::stub(crate::symbol_size::SymbolSize::has_padding_modules, vs::pad_r8x32)]
+fn fd_flip_r8x32() {
+    fd_flip::<256>(25);
+}
+
+#[kani::proof]
+#[kani::unwind(146)]
+#[kani::stub(crate::symbol_size::SymbolList::all, vs::all_sq12)]
+#[kani::stub(crate::symbol_size::SymbolSize::block_setup, vs::bs_sq12)]
+#[kani::stub(crate::symbol_size::SymbolSize::has_padding_modules, vs::pad_sq12)]
+fn fd_flip_sq12() {
+    fd_flip::<144>(1);
+}
+
+#[kani::proof]
+#[kani::unwind(1026)]
+#[kani::stub(crate::symbol_size::SymbolList::all, vs::all_sq32)]
+#[kani::stub(crate::symbol_size::SymbolSize::block_setup, vs::bs_sq32)]
+#[kani::stub(crate::symbol_size::SymbolSize::has_padding_modules, vs::pad_sq32)]
+fn fd_flip_sq32() {
+    fd_flip::<1024>(9);
+}
